@@ -31,7 +31,7 @@ def run_case(cs):
     rng = cs.rng
     tree = world.gen_tree(rng, max_files=rng.choice([1, 3, 6]), max_dirs=rng.choice([0, 1, 3]), min_files=1)
     d = cs.dir()
-    rootname = "R" + world.gen_name(rng, rng.choice(["plain", "space", "uni", "xml", "punct"]), ext=False)
+    rootname = "R" + world.gen_name(rng, rng.choice(["plain", "space", "uni", "xml", "punct", "dotend", "dotunder", "dot"]), ext=False)
     root = os.path.join(d, rootname)
     world.write_tree(root, tree)
     subdirs = [x for x in tree if tree[x] is None]
